@@ -249,8 +249,10 @@ def run(rep, pdb, tier):
             pb = ctx.binds.get(p[1]) if p[0] == "var" else None
             init = ctx.term(pb.init) if pb is not None and pb.init is not None else None
             ok = r[1:5] == (num(0), DEG0, False, True) and e.value == ("op", "+", ("op", "*", p, P(1)), ("idx", CO0, r[0])) and init == ("idx", CO0, DEG0)
-            tail = fn["body"].get("expr")
-            ok = ok and tail is not None and ctx.term(tail) == p
+            from .common import return_paths as _rp
+            # the accumulated value is what is returned on the general path (whether the empty case is an early return or the
+            # other branch of an if / else tail)
+            ok = ok and any(v_ == p for _f, v_, _n in _rp(ctx))
         rep.add("horner", rule, ok, fn["body"], "", where=loc(fn["body"]))
     # ---- derivative
     fn = pdb.fn("%s::derivative" % PT)
@@ -359,7 +361,17 @@ def run(rep, pdb, tier):
             atoms = cond_atoms(ctx, w["cond"], True)
             ivs = [a[3] for a in atoms if a[0] == "cmp" and a[1] == "<" and a[2] == num(0)]
             ok = len(ivs) == 1 and ivs[0][0] == "var"
-            if ok:
+            if not ok:
+                # the counter-free form: `while coeffs[len-1] == zero && len > 1 { coeffs.pop(); }`
+                last = ("idx", CO0, DEG0)
+                iszero = any(a[0] == "cmp" and a[1] == "==" and ((a[2] == last and is_zero_term(a[3])) or (a[3] == last and is_zero_term(a[2]))) for a in atoms)
+                keeps_one = any(a[0] == "cmp" and ((a[1] == "<" and a[2] == num(1) and a[3] == LEN(CO0)) or (a[1] == "<=" and a[2] == num(2) and a[3] == LEN(CO0))) for a in atoms)
+                stmts = list(w["body"].get("stmts", [])) + ([{"e": w["body"]["expr"]}] if w["body"].get("expr") is not None else [])
+                only_pop = len(stmts) == 1 and strip(stmts[0].get("e") or {}).get("k") == "MethodCall" and strip(stmts[0]["e"]).get("name") == "pop" and ctx.term(strip(stmts[0]["e"])["recv"]) == CO0
+                ok = iszero and keeps_one and only_pop and len(atoms) == 2
+                rep.add("trim", rule, ok, fn["body"], "counter-free form", where=loc(fn["body"]))
+                ok = None
+            elif ok:
                 i = ivs[0]
                 iszero = any(a[0] == "cmp" and a[1] == "==" and ((a[2] == ("idx", CO0, i) and is_zero_term(a[3])) or (a[3] == ("idx", CO0, i) and is_zero_term(a[2]))) for a in atoms)
                 pops = [n for n in walk(w["body"]) if n.get("k") == "MethodCall" and n.get("name") == "pop" and ctx.term(n["recv"]) == CO0]
@@ -367,7 +379,8 @@ def run(rep, pdb, tier):
                 ib = ctx.binds.get(i[1])
                 init = ib is not None and ib.init is not None and ctx.term(ib.init) == DEG0
                 ok = iszero and len(pops) == 1 and len(decs) == 1 and init and len(atoms) == 2
-        rep.add("trim", rule, ok, fn["body"], "", where=loc(fn["body"]))
+        if ok is not None:
+            rep.add("trim", rule, ok, fn["body"], "", where=loc(fn["body"]))
     fn = pdb.fn("%s::is_zero" % PT)
     rule = "is_zero returns false on the first non-zero coefficient, over the full range, and true otherwise"
     if fn is None:
